@@ -136,6 +136,8 @@ inductive Fate
   /-- lost to a queue overflow; `lag` = number of frames that were queued and unsent for this client -/
   | overflow (lag : Nat)
   | flushed
+  /-- (repaired `vbi_proxyd_update_services` only) the device no longer grants the client anything -/
+  | grantLost
 deriving Repr, DecidableEq
 
 /-- `PROXY_CLNT` plus the client's end of the socket -/
@@ -255,6 +257,39 @@ def stopAcq (s : State) : State :=
              log := s.log ++ [.closed] }
   else s
 
+def setClient (s : State) (i : Nat) (c : Client) : State :=
+  { s with clients := s.clients.set i c }
+
+/-- release every buffer still queued for client `i`, recording `fate` (ghost) -/
+def releaseOwn (s : State) (i : Nat) (fate : Fate) : Except Err State :=
+  match s.clients[i]? with
+  | none => .ok s
+  | some c =>
+    match releaseAllQ s.dev.q s.dev.free c.backlog with
+    | .error e => .error e
+    | .ok (q, f) =>
+      let seqs := (s.dev.q.take c.backlog).map (·.frame)
+      .ok (setClient { s with dev := { s.dev with q := q, free := f } } i
+        { c with backlog := 0, done := seqs.map (·, fate) ++ c.done })
+
+/-- (repaired code, commit "grant-lost") the loop added to `vbi_proxyd_update_services`: a FORWARD client that is
+granted nothing any more is not referenced by new frames, so it releases everything still queued for it -/
+def relLostLoop : Nat → State → Nat → Except Err State
+  | 0, s, _ => .ok s
+  | fuel + 1, s, i =>
+    match s.clients[i]? with
+    | none => .ok s
+    | some c =>
+      if c.state == .forward && c.allServices == 0 then
+        match releaseOwn s i .grantLost with
+        | .error e => .error e
+        | .ok s1 => relLostLoop fuel s1 (i + 1)
+      else relLostLoop fuel s (i + 1)
+
+/-- present only if the translator found that loop in the C source -/
+def relLost (s : State) : Except Err State :=
+  if updReleasesLostGrant then relLostLoop s.clients.length s 0 else .ok s
+
 /-- first part of `vbi_proxyd_update_services`: the device is opened if it is closed and anybody has requests
 (or once, to learn the driver API) -/
 def updStage1 (cfg : Cfg) (s : State) : State × Bool :=
@@ -271,7 +306,7 @@ def updClient (cfg : Cfg) (req : Option Nat) (c : Client) : Client :=
   if req == some c.id then { c1 with services := maskServices cfg c.services } else c1
 
 /-- second part (device open): service loop, scanning, `all_services` / `max_lines`, queue allocation or stop -/
-def updStage2 (cfg : Cfg) (s1 : State) (req : Option Nat) : State × Bool :=
+def updStage2 (cfg : Cfg) (s1 : State) (req : Option Nat) : Except Err (State × Bool) :=
   let calls := updCalls cfg s1.clients true
   let cl := s1.clients.map (updClient cfg req)
   let devServices := cl.foldl (fun acc c => if c.state == .forward then acc ||| c.allServices else acc) 0
@@ -281,34 +316,20 @@ def updStage2 (cfg : Cfg) (s1 : State) (req : Option Nat) : State × Bool :=
   let cl2 := if decScanning != s1.dev.scanning then cl.map (fun c => { c with chnInd := c.chnInd ||| chnNorm }) else cl
   let scanning := if decScanning != s1.dev.scanning then decScanning else s1.dev.scanning
   let d := { s1.dev with active := active, decScanning := decScanning, scanning := scanning }
-  let s2 := { s1 with clients := cl2, log := s1.log ++ calls }
-  if devServices != 0 then
-    let d := { d with allServices := devServices, maxLines := cfg.count active }
-    ({ s2 with dev := allocate d cl2 }, true)
-  else
-    (stopAcq { s2 with dev := d }, calls.isEmpty)
+  match relLost { s1 with clients := cl2, dev := d, log := s1.log ++ calls } with
+  | .error e => .error e
+  | .ok s3 =>
+    if devServices != 0 then
+      .ok ({ s3 with dev := allocate { s3.dev with allServices := devServices, maxLines := cfg.count active } s3.clients }, true)
+    else
+      .ok (stopAcq s3, calls.isEmpty)
 
 /-- `vbi_proxyd_update_services (dev, p_new_req, ...)`; `req` = id of the requesting client -/
-def updateServices (cfg : Cfg) (s : State) (req : Option Nat) : State × Bool :=
+def updateServices (cfg : Cfg) (s : State) (req : Option Nat) : Except Err (State × Bool) :=
   let r := updStage1 cfg s
-  if !r.1.dev.opened then r else updStage2 cfg r.1 req
+  if !r.1.dev.opened then .ok r else updStage2 cfg r.1 req
 
 /-! ## operations on one client (by position in the client list) -/
-
-def setClient (s : State) (i : Nat) (c : Client) : State :=
-  { s with clients := s.clients.set i c }
-
-/-- release every buffer still queued for client `i`, recording `fate` (ghost) -/
-def releaseOwn (s : State) (i : Nat) (fate : Fate) : Except Err State :=
-  match s.clients[i]? with
-  | none => .ok s
-  | some c =>
-    match releaseAllQ s.dev.q s.dev.free c.backlog with
-    | .error e => .error e
-    | .ok (q, f) =>
-      let seqs := (s.dev.q.take c.backlog).map (·.frame)
-      .ok (setClient { s with dev := { s.dev with q := q, free := f } } i
-        { c with backlog := 0, done := seqs.map (·, fate) ++ c.done })
 
 /-- `vbi_proxyd_close` -/
 def closeClient (s : State) (i : Nat) : Except Err State :=
@@ -326,20 +347,22 @@ def closeClient (s : State) (i : Nat) : Except Err State :=
               msgs := if c.eof then s1.msgs else s1.msgs ++ [(c.id, none)] }
 
 /-- `vbi_proxyd_take_service_req`; returns the result flag -/
-def takeServiceReq (cfg : Cfg) (s : State) (i : Nat) (newSv strict : Nat) : State × Bool :=
+def takeServiceReq (cfg : Cfg) (s : State) (i : Nat) (newSv strict : Nat) : Except Err (State × Bool) :=
   match s.clients[i]? with
-  | none => (s, false)
+  | none => .ok (s, false)
   | some c =>
     let sv := (List.range nStrict).map (fun st =>
       let v := andNot (c.services.getD st 0) newSv
       if st == strict then v ||| newSv else v)
-    let (s1, res) := updateServices cfg (setClient s i { c with services := sv }) (some c.id)
-    match s1.clients[i]? with
-    | none => (s1, false)
-    | some c1 =>
-      let ok := res && !((c1.allServices &&& newSv) == 0 && newSv != 0)
-      let c2 := if s1.dev.opened then { c1 with maxLines := cfg.count s1.dev.active } else c1
-      (setClient s1 i c2, ok)
+    match updateServices cfg (setClient s i { c with services := sv }) (some c.id) with
+    | .error e => .error e
+    | .ok (s1, res) =>
+      match s1.clients[i]? with
+      | none => .ok (s1, false)
+      | some c1 =>
+        let ok := res && !((c1.allServices &&& newSv) == 0 && newSv != 0)
+        let c2 := if s1.dev.opened then { c1 with maxLines := cfg.count s1.dev.active } else c1
+        .ok (setClient s1 i c2, ok)
 
 def decCount (cfg : Cfg) (s : State) : Nat := if s.dev.opened then cfg.count s.dev.active else 0
 
@@ -352,27 +375,31 @@ def takeMessage (cfg : Cfg) (s : State) (i : Nat) (m : InMsg) : Except Err (Opti
     | .connect sv st bc =>
       if c.state != .waitConReq then .ok none else
       let s0 := setClient s i { c with state := .forward, bufferCount := bc }
-      let (s1, ok) := takeServiceReq cfg s0 i sv st
-      (match s1.clients[i]? with
-       | none => .ok (some s1)
-       | some c1 =>
-         if ok then
-           let m := OutMsg.connectCnf c1.allServices (decCount cfg s1)
-           .ok (some (setClient s1 i { c1 with out := some (m, m.size) }))
-         else
-           .ok (some (setClient s1 i { c1 with out := some (.connectRej, OutMsg.connectRej.size), state := .waitClose })))
+      (match takeServiceReq cfg s0 i sv st with
+       | .error e => .error e
+       | .ok (s1, ok) =>
+         match s1.clients[i]? with
+         | none => .ok (some s1)
+         | some c1 =>
+           if ok then
+             let m := OutMsg.connectCnf c1.allServices (decCount cfg s1)
+             .ok (some (setClient s1 i { c1 with out := some (m, m.size) }))
+           else
+             .ok (some (setClient s1 i { c1 with out := some (.connectRej, OutMsg.connectRej.size), state := .waitClose })))
     | .service sv st reset =>
       if c.state != .forward then .ok none else
       let s0 := if reset then setClient s i { c with services := List.replicate nStrict 0 } else s
       (match releaseOwn s0 i .svcChange with
        | .error e => .error e
        | .ok s1 =>
-         let (s2, ok) := takeServiceReq cfg s1 i sv st
-         match s2.clients[i]? with
-         | none => .ok (some s2)
-         | some c2 =>
-           let m := if ok then OutMsg.serviceCnf c2.allServices (decCount cfg s2) else OutMsg.serviceRej
-           .ok (some (setClient s2 i { c2 with out := some (m, m.size) })))
+         match takeServiceReq cfg s1 i sv st with
+         | .error e => .error e
+         | .ok (s2, ok) =>
+           match s2.clients[i]? with
+           | none => .ok (some s2)
+           | some c2 =>
+             let m := if ok then OutMsg.serviceCnf c2.allServices (decCount cfg s2) else OutMsg.serviceRej
+             .ok (some (setClient s2 i { c2 with out := some (m, m.size) })))
     | .bye =>
       (match closeClient s i with
        | .error e => .error e
@@ -482,8 +509,11 @@ def clientLoop (cfg : Cfg) : Nat → State → Nat → Except Err State
       | some c =>
         if c.state == .closed then
           let s2 := { s1 with clients := s1.clients.eraseIdx i }
-          let s3 := if c.allServices != 0 then (updateServices cfg s2 none).1 else s2
-          clientLoop cfg fuel s3 i
+          if c.allServices != 0 then
+            match updateServices cfg s2 none with
+            | .error e => .error e
+            | .ok (s3, _) => clientLoop cfg fuel s3 i
+          else clientLoop cfg fuel s2 i
         else clientLoop cfg fuel s1 (i + 1)
 
 /-! ## capture -/
